@@ -9,6 +9,7 @@ from typing_extensions import Never
 from mypy_extensions import mypyc_attr
 
 from pyjelly import jelly
+from pyjelly.errors import JellyConformanceError
 from pyjelly.options import MAX_VERSION, LookupPreset, StreamParameters, StreamTypes
 from pyjelly.parse.lookup import LookupDecoder
 
@@ -366,7 +367,13 @@ class Decoder:
         language = datatype = None
         if literal.langtag:
             language = literal.langtag
-        elif self.datatypes.lookup_size and literal.HasField("datatype"):
+        elif literal.HasField("datatype"):
+            if not self.datatypes.lookup_size:
+                msg = (
+                    "literal refers to a datatype but the datatype lookup "
+                    "is disabled (its size is 0)"
+                )
+                raise JellyConformanceError(msg)
             datatype = self.datatypes.decode_datatype_term_index(literal.datatype)
         return self.adapter.literal(
             lex=literal.lex,
